@@ -76,8 +76,14 @@ def judge (known : List String) (case impl : String) : JudgeOut :=
             -- C03's business (how errors null positions; a key that occurs twice is executed per
             -- occurrence) exactly when the specification's run recorded a field error; without
             -- any error it would be an unlisted data defect
-            if specRes.errs ≠ [] ∧ m [] cap fuel = mK then { verdict := "OK", model := mK, spec := spec }
-            else .viol mK spec
+            if m [] cap fuel = mK then
+              if specRes.errs ≠ [] then { verdict := "OK", model := mK, spec := spec } else .viol mK spec
+            else
+              -- several listed findings produce the same loss (removing any single one changes
+              -- nothing, removing all does): still exactly the listed deviation
+              match sub with
+              | id :: _ => .known id mK spec
+              | [] => .viol mK spec
     | _, _, _, _, _ => .viol "bad-case" "undecodable case"
   | _ => .viol "bad-case" "undecodable case"
 
